@@ -31,6 +31,9 @@ def files(quick, r):
         out.append(bg + body + en)
     r.shuffle(out)
     keep = [f for f in out if f.count(b"DDEND") > 1][:6]
+    # the last reducible line ends with each kind of line boundary other than LF / CR (char mode protects that byte)
+    keep += [b"DDBEGIN\n" + body + b"DDEND\n" for body in (b"a\xc2\x85b\xc2\x85", b"x\x0c", b"y\x0b", b"z\xe2\x80\xa8",
+                                                           b"w\x1c", b"v\x1e", b"u\r\n")]
     return keep + out[: (40 if quick else 195)]
 
 
